@@ -42,7 +42,131 @@ def payload(rng, mode, n, kind="random"):
         return bytes([0xEC, 0x11] * (n // 2 + 1))[:n]
     if kind == "ascii":
         return bytes(rng.randrange(32, 127) for _ in range(n))
+    if kind.startswith("const"):
+        return bytes([int(kind[5:], 16)]) * n
+    if kind == "periodic":
+        per = bytes(rng.randrange(256) for _ in range(rng.choice([1, 2, 3, 4, 8])))
+        return (per * (n // len(per) + 1))[:n]
+    if kind == "prefixed":
+        pre = rng.choice(PREFIXES)
+        return (pre + bytes(rng.randrange(256) for _ in range(max(0, n - len(pre)))))[:max(n, len(pre))]
     return bytes(rng.randrange(256) for _ in range(n))
+
+
+# byte sequences that text-handling code likes to treat specially (byte order marks, NUL, escape, URL schemes, line ends)
+PREFIXES = [b"\xef\xbb\xbf", b"\xfe\xff", b"\xff\xfe", b"\x00", b"\x1b", b"http://", b"HTTP://", b"https://", b"\r\n", b" ", b"\\", b"%", b"+",
+            b"\xc3\xa9", b"\xe2\x82\xac", b"\xf0\x9f\x9a\x80", b"0x", b"-1", b"1e5", b"\t"]
+
+
+def special_builds(ctx, quick_big=False):
+    """build cases of kinds that random payloads practically never produce: special prefixes, the empty payload under every
+    forced / automatic mode, constant and periodic payloads (small and filling the largest versions), tiny payloads in forced
+    large versions, and denser-than-forced payloads beyond the forced mode's version-40 capacity"""
+    rng = ctx.rng
+    cp = caps(ctx)
+    cases = []
+    for pre in PREFIXES:
+        cases.append(build_case(None, rng.randrange(4), None, None, pre + b"hello"))
+        cases.append(build_case(None, None, None, None, pre))
+        cases.append(build_case(2, 1, None, None, pre + b"1234"))
+    for fm in (None, 0, 1, 2):
+        for e in (None, 0, 3):
+            for v in (None, 0, 9, 39):
+                cases.append(build_case(fm, e, v, None, b""))
+    for cb in (0x00, 0xFF, 0xEC, 0x11, 0x55, 0xAA, 0x30, 0x41):
+        for n in (1, 17, 106) + ((1273, 2953) if (quick_big or not ctx.quick) else ()):
+            for e in ((0, 3) if n > 1000 else (1,)):
+                if not (n == 2953 and e == 3):
+                    cases.append(build_case(None, e, None, None, bytes([cb]) * n))
+    for _ in range(6 if ctx.quick else 40):
+        n = rng.choice([20, 55, 100, 300])
+        cases.append(build_case(None, rng.randrange(4), None, None, payload(rng, 2, n, "periodic")))
+        cases.append(build_case(None, rng.randrange(4), rng.choice([4, 9, 16]), None, payload(rng, 2, 5, "periodic")))
+    # a tiny payload in a forced large version (almost all padding), every level
+    for v in ((35, 39) if ctx.quick else (30, 35, 36, 37, 38, 39)):
+        for e in range(4):
+            cases.append(build_case(None, e, v, None, b"HELLO"))
+            cases.append(build_case(None, e, v, rng.randrange(8), b"12345"))
+    if cp:
+        # digits under forced Alphanumeric / Byte, alphanumerics under forced Byte, beyond the forced mode's V40 capacity
+        for fm, nat in ((2, 0), (2, 1), (1, 0)):
+            for e in (0, 2):
+                top = cp[fm][e][39]
+                for n in (top, top + 1, min(cp[nat][e][39], top + 500)):
+                    cases.append(build_case(fm, e, None, None, payload(rng, nat, n)))
+                    cases.append(build_case(fm, None if e == 2 else e, None, None, payload(rng, nat, n)))
+        # forced version, NO level: the default level Q decides (lengths between the Q and the L capacity must be refused)
+        for m in range(3):
+            for v in ((0, 5, 9, 20, 39) if ctx.quick else range(0, 40, 3)):
+                for n in (cp[m][2][v], cp[m][2][v] + 1, cp[m][1][v], cp[m][0][v]):
+                    cases.append(build_case(m, None, v, None, payload(rng, m, n)))
+    return cases
+
+
+def history_sweeps(ctx):
+    """sequences that only matter if something is remembered between builds: the same payload and version at every level,
+    under every forced mask, with automatic and forced mask alternating, and plain repetitions -- executed IN ORDER IN ONE
+    PROCESS (run_exe shards=1); the caller checks every output with its own oracles"""
+    rng = ctx.rng
+    cases = []
+    for data, v in ((b"HELLO", 9), (b"12345", 16), (b"a" * 55, None), (b"hello world", 3), (payload(rng, 2, 30, "ascii"), 7)):
+        for e in (0, 1, 2, 3, 0):
+            cases.append(build_case(None, e, v, None, data))
+        for k in (None, 0, 1, None, 7, 3, None):
+            cases.append(build_case(None, 1, v, k, data))
+        for fm in (2, None, 2):
+            cases.append(build_case(fm, 1, v, None, data))
+        cases.append(build_case(None, 1, v, None, data))
+        cases.append(build_case(None, 1, v, None, data))
+        cases.append(build_case(None, 1, (v or 4) + 1, None, data))
+        cases.append(build_case(None, 1, v, None, data))
+    return cases
+
+
+def run_in_order(ctx, name, cases):
+    """implementation outputs of the cases run sequentially in ONE process, and the (pure) model's outputs; disagreements are
+    recorded like any correspondence disagreement"""
+    impl = run_exe(FQH, cases, "h_seq_" + name, shards=1)
+    model = run_exe(FQM, cases, "m_seq_" + name)
+    st = ctx.streams.setdefault(name, {"cases": 0, "disagreements": 0})
+    st["cases"] += len(cases)
+    for c, a, b in zip(cases, impl, model):
+        ctx.evaluations += 1
+        if a != b:
+            st["disagreements"] += 1
+            if len(ctx.tie_failures) < 20:
+                ctx.tie_failures.append({"stream": name, "case": c, "implementation": a[:2000], "model": b[:2000],
+                                         "note": "cases of this stream run in order in one process"})
+    return impl
+
+
+def sweep_check(ctx, which=(), nopanic=False, outcome=False):
+    cases = history_sweeps(ctx)
+    before = len(ctx.oracle_failures)
+    impl = run_in_order(ctx, "history_sweep", cases)
+    if nopanic:
+        no_panic(ctx, "history_sweep", cases, impl)
+    if outcome:
+        outcome_oracle(ctx, "history_sweep_outcome", cases, impl)
+    if which:
+        symbol_oracles(ctx, cases, impl, list(which))
+    for f in ctx.oracle_failures[before:]:
+        inp = f.get("input")
+        if isinstance(inp, dict) and "case" in inp:
+            inp["in_sequence"] = inp.pop("case")
+            inp["note"] = "fails as part of the history sweep (cases run in order in one process); a replay repeats the exploration"
+
+
+def special_check(ctx, which=(), nopanic=False, outcome=False, quick_big=False):
+    cases = special_builds(ctx, quick_big)
+    impl, _ = ctx.correspond("special_builds", cases)
+    if nopanic:
+        no_panic(ctx, "special_builds", cases, impl)
+    if outcome:
+        outcome_oracle(ctx, "special_builds_outcome", cases, impl)
+    if which:
+        symbol_oracles(ctx, cases, impl, list(which))
+    return cases, impl
 
 
 def opt(x):
@@ -320,6 +444,11 @@ def symbol_oracles(ctx, cases, outs, which):
                 ctx.direct_failure("fields", desc, "reported fields differ from forced/default: %s; output %s" % (bad, o[:60]))
         if "format" in tr:
             tr["format"].append(("oformat " + mat, "%d %d 1" % (b["e"], b["k"]), desc))
+        if "format_forced" in tr:
+            # the mask named by the symbol's format information is the FORCED one (and the level the one in effect)
+            fk = b["k"] if p[4] == "-" else int(p[4])
+            fe = b["e"] if p[2] == "-" else int(p[2])
+            tr["format_forced"].append(("oformat " + mat, "%d %d 1" % (fe, fk), desc))
         if "fixed" in tr:
             tr["fixed"].append(("ofixed " + mat, "1", desc))
             ctx.count_oracle("beyond", 1)
@@ -389,6 +518,8 @@ def run_C01(ctx):
         cases += gen_builds(ctx, 60, versions=[0, 8, 9, 25, 26, 39], all_cells=True)[:144]
     impl, _ = ctx.correspond("build", cases)
     symbol_oracles(ctx, cases, impl, ["decode"])
+    special_check(ctx, ["decode"])
+    sweep_check(ctx, ["decode"])
 
 
 def corpus_builds(which):
@@ -404,6 +535,8 @@ def run_C02(ctx):
     cases = gen_builds(ctx, n, all_cells=True, versions=None if not ctx.quick else [0, 4, 9, 14, 20, 26, 33, 39])
     impl, _ = ctx.correspond("build", cases)
     symbol_oracles(ctx, cases, impl, ["rs"])
+    special_check(ctx, ["rs"])
+    sweep_check(ctx, ["rs"])
     # structure stream with position-tagged bytes over all 160 layouts
     T = ctx.parsed
     sc = []
@@ -447,6 +580,8 @@ def run_C03(ctx):
     cases = gen_builds(ctx, 200 if ctx.quick else 4000, all_cells=not ctx.quick)
     impl, _ = ctx.correspond("build", cases)
     symbol_oracles(ctx, cases, impl, ["fixed"])
+    special_check(ctx, ["fixed"])
+    sweep_check(ctx, ["fixed"])
 
 
 def run_C15(ctx):
@@ -461,6 +596,8 @@ def run_C15(ctx):
     cases = gen_builds(ctx, 200 if ctx.quick else 4000, all_cells=not ctx.quick)
     impl, _ = ctx.correspond("build", cases)
     symbol_oracles(ctx, cases, impl, ["labels"])
+    special_check(ctx, ["labels"])
+    sweep_check(ctx, ["labels"])
 
 
 # ------------------------------------------------------------------------------------------ C04
@@ -495,6 +632,8 @@ def run_C04(ctx):
     outcome_oracle(ctx, "outcome_level_in_effect", cases, impl)
     fm = ["fmt %d %d %d" % (v, e, k) for v in ([0, 6, 39] if ctx.quick else range(40)) for e in range(4) for k in range(8)]
     ctx.correspond("format", fm)
+    special_check(ctx, ["format", "fields"], outcome=True)
+    sweep_check(ctx, ["format", "fields"])
 
 
 # ------------------------------------------------------------------------------------------ C05
@@ -570,9 +709,27 @@ def run_C05(ctx):
         tr.append(("ominver %d %d %d" % (m, e, n), exp, {"case": c}))
     ctx.oracle("build_outcome", tr)
     symbol_oracles(ctx, cases, impl, ["decode"])
+    special_check(ctx, ["decode"], nopanic=True, outcome=True)
+    sweep_check(ctx, ["decode"], outcome=True)
 
 
 # ------------------------------------------------------------------------------------------ C06
+def check_data_codewords(ctx, bc, tag="build"):
+    """data codewords read back from the implementation's symbols (ISO placement / unmasking / de-interleaving oracle) equal
+    the ISO 18004 encoding of the payload for the symbol's mode, version and level (indicator, count, bits, terminator, padding)"""
+    impl = ctx.run_impl(tag, bc)
+    tr = []
+    for c, o in zip(bc, impl):
+        b = parse_build_out(o)
+        if b:
+            tr.append(("odcw %d %s" % (b["n"], b["hex"]), None, (c, b)))
+    outs = run_exe(FQM, [t[0] for t in tr], "o_dcw")
+    tr2 = []
+    for (oc, _, (c, b)), got in zip(tr, outs):
+        tr2.append(("oisocw %d %d %d %s" % (b["m"], b["v"], b["e"], c.split()[5]), got, {"case": c}))
+    ctx.oracle("symbol_data_codewords", tr2)
+
+
 def run_C06(ctx):
     cp = caps(ctx)
     T = ctx.parsed
@@ -620,17 +777,9 @@ def run_C06(ctx):
     ctx.correspond("push_bits", pb)
     # end to end: data codewords read back from real symbols
     bc = gen_builds(ctx, 150 if ctx.quick else 3000)
-    impl = ctx.run_impl("build", bc)
-    tr = []
-    for c, o in zip(bc, impl):
-        b = parse_build_out(o)
-        if b:
-            tr.append(("odcw %d %s" % (b["n"], b["hex"]), None, (c, b)))
-    outs = run_exe(FQM, [t[0] for t in tr], "o_dcw")
-    tr2 = []
-    for (oc, _, (c, b)), got in zip(tr, outs):
-        tr2.append(("oisocw %d %d %d %s" % (b["m"], b["v"], b["e"], c.split()[5]), got, {"case": c}))
-    ctx.oracle("symbol_data_codewords", tr2)
+    check_data_codewords(ctx, bc)
+    sc_, _ = special_check(ctx)
+    check_data_codewords(ctx, sc_, "special_builds")
 
 
 # ------------------------------------------------------------------------------------------ C07
@@ -689,6 +838,12 @@ def run_C07(ctx):
             d = max(T["data_codewords"][e][v], g[0] * g[1] + g[2] * g[3])
             tot = T["max_bytes"][v]
             sc.append("struct %d %d %s" % (e, v, hexs(bytes(rng.randrange(256) for _ in range(d)) + bytes(tot - d))))
+            # blocks with equal content / equal prefixes: constant and short-period data (what padding looks like)
+            if not ctx.quick or (v + e) % 3 == 0:
+                sc.append("struct %d %d %s" % (e, v, hexs(bytes([rng.choice([0, 0xEC, 0x11, 0x41])]) * d + bytes(tot - d))))
+                sc.append("struct %d %d %s" % (e, v, hexs((bytes([0xEC, 0x11]) * d)[:d] + bytes(tot - d))))
+                per = bytes(rng.randrange(256) for _ in range(rng.choice([3, 5, 7])))
+                sc.append("struct %d %d %s" % (e, v, hexs((per * d)[:d] + bytes(tot - d))))
     simpl, _ = ctx.correspond("structure", sc)
     tr = []
     for c, o in zip(sc, simpl):
@@ -699,6 +854,8 @@ def run_C07(ctx):
         else:
             ctx.direct_failure("structure", {"case": c}, o[:60])
     ctx.oracle("emitted_ec_is_remainder", tr)
+    special_check(ctx, ["rs"])
+    sweep_check(ctx, ["rs"])
 
 
 # ------------------------------------------------------------------------------------------ C08
@@ -739,7 +896,9 @@ def run_C08(ctx):
         bc.append(build_case(None, e, None, a, data))
         bc.append(build_case(None, e, None, b, data))
     impl, _ = ctx.correspond("build", bc)
-    symbol_oracles(ctx, bc, impl, ["decode"])
+    symbol_oracles(ctx, bc, impl, ["decode", "format_forced", "fixed"])
+    special_check(ctx, ["decode", "format_forced"])
+    sweep_check(ctx, ["decode", "format_forced"])
 
 
 # ------------------------------------------------------------------------------------------ C09
@@ -812,6 +971,7 @@ def run_C09(ctx):
     impl, _ = ctx.correspond("build", bc)
     no_panic(ctx, "build", bc, impl)
     symbol_oracles(ctx, bc, impl, ["decode"])
+    special_check(ctx, ["decode"])
 
 
 # ------------------------------------------------------------------------------------------ C10
@@ -841,6 +1001,15 @@ def run_C10(ctx):
     for b in range(256):
         cases.append(build_case(None, rng.randrange(4), None, None, b"AB" + bytes([b])))
         cases.append(build_case(None, rng.randrange(4), None, None, b"7" * 8 + bytes([b]) + b"7" * 7))
+    # a FORCED version at its exact capacity, one below and one to three above (must be Ok / refused, never a panic)
+    if cp:
+        for m in range(3):
+            for e in range(4):
+                for v in ([0, 8, 9, 10, 17, 25, 26, 27, 33, 39] if ctx.quick else range(40)):
+                    hi = cp[m][e][v]
+                    for n in ((hi, hi + 1) if ctx.quick else (hi - 1, hi, hi + 1, hi + 2, hi + 3)):
+                        if n >= 0:
+                            cases.append(build_case(m, e, v, None, payload(rng, m, n)))
     impl, _ = ctx.correspond("build", cases)
     no_panic(ctx, "build", cases, impl)
     for c, o in zip(cases, impl):
@@ -859,9 +1028,44 @@ def run_C10(ctx):
                      for n, k in [(9, 17), (123, 30), (19, 7), (68, 18), (1, 30), (121, 30)] for _ in range(3)]
     o2, _ = ctx.correspond("division", run_C07_small)
     no_panic(ctx, "division", run_C07_small, o2)
+    special_check(ctx, nopanic=True, outcome=True, quick_big=True)
+    sweep_check(ctx, nopanic=True, outcome=True)
 
 
 # ------------------------------------------------------------------------------------------ C11
+def check_selection(ctx, bulk, tag="cands"):
+    """`cands` cases (implementation + documented-penalty oracle only): the score used for ranking every candidate of the real
+    selection loop equals the documented penalty of that candidate, and the chosen mask has minimal penalty"""
+    bo = ctx.run_impl(tag, bulk)
+    btr, bmeta = [], []
+    for c, o in zip(bulk, bo):
+        q = o.split()
+        if len(q) < 3 or q[0] != "OK":
+            continue
+        for tok in q[3:]:
+            k, sc_, hx = tok.split(":")
+            btr.append("openalty %s %s" % (q[2], hx))
+            bmeta.append((c, int(q[1]), int(k), int(sc_)))
+    bouts = run_exe(FQM, btr, "o_pen_" + tag)
+    ctx.count_oracle("iso_penalty", len(bouts))
+    bper = {}
+    for (c, chosen, k, s_), got in zip(bmeta, bouts):
+        try:
+            pen = int(got)
+        except ValueError:
+            ctx.direct_failure("iso_penalty", {"case": c}, "oracle output " + got[:60])
+            continue
+        d = bper.setdefault(c, {"chosen": chosen, "pens": {}, "used": {}})
+        d["pens"][k] = pen
+        d["used"][k] = s_
+    ctx.count_oracle("selection_minimal", len(bper))
+    for c, d in bper.items():
+        if d["used"] != d["pens"]:
+            ctx.direct_failure("ranking_score", {"case": c}, "score used for ranking %s differs from the documented penalty %s" % (d["used"], d["pens"]))
+        elif len(d["pens"]) != 8 or d["pens"][d["chosen"]] != min(d["pens"].values()):
+            ctx.direct_failure("selection_minimal", {"case": c}, "chosen mask %d, penalties %s" % (d["chosen"], d["pens"]))
+
+
 def run_C11(ctx):
     rng = ctx.rng
     cases = []
@@ -913,34 +1117,7 @@ def run_C11(ctx):
         m = rng.choice([0, 1, 2, 2])
         bulk.append(build_case(None, rng.randrange(4), None, None, payload(rng, m, rng.randrange(1, 30), "ascii" if m == 2 else "random"), "cands"))
     bulk.append(build_case(None, 0, None, None, b"\x00" * 106, "cands"))
-    bo = ctx.run_impl("cands", bulk)
-    btr, bmeta = [], []
-    for c, o in zip(bulk, bo):
-        q = o.split()
-        if len(q) < 3 or q[0] != "OK":
-            continue
-        for tok in q[3:]:
-            k, sc_, hx = tok.split(":")
-            btr.append("openalty %s %s" % (q[2], hx))
-            bmeta.append((c, int(q[1]), int(k), int(sc_)))
-    bouts = run_exe(FQM, btr, "o_penb")
-    ctx.count_oracle("iso_penalty", len(bouts))
-    bper = {}
-    for (c, chosen, k, s_), got in zip(bmeta, bouts):
-        try:
-            pen = int(got)
-        except ValueError:
-            ctx.direct_failure("iso_penalty", {"case": c}, "oracle output " + got[:60])
-            continue
-        d = bper.setdefault(c, {"chosen": chosen, "pens": {}, "used": {}})
-        d["pens"][k] = pen
-        d["used"][k] = s_
-    ctx.count_oracle("selection_minimal", len(bper))
-    for c, d in bper.items():
-        if d["used"] != d["pens"]:
-            ctx.direct_failure("ranking_score", {"case": c}, "score used for ranking %s differs from the documented penalty %s" % (d["used"], d["pens"]))
-        elif len(d["pens"]) != 8 or d["pens"][d["chosen"]] != min(d["pens"].values()):
-            ctx.direct_failure("selection_minimal", {"case": c}, "chosen mask %d, penalties %s" % (d["chosen"], d["pens"]))
+    check_selection(ctx, bulk)
     # forced mask overrides
     fc = []
     for i in range(24 if ctx.quick else 400):
@@ -971,7 +1148,7 @@ def run_C11(ctx):
     # the dark-ratio term at every table index: for each percentage p the smallest dark count that reaches p and the count
     # just below it, with the last (bottom-right) / first cell forced dark or light -- a mis-counted module or a wrong table
     # entry shows as a different score on one of these
-    for sz in ([21] if ctx.quick else [21, 25, 33]):
+    for sz in ([21, 25] if ctx.quick else [21, 25, 33, 45]):     # 25 and 45: sides divisible by 5 reach exact multiples of 5 %
         tot = sz * sz
         for pc in range(0, 101):
             hi = (pc * tot + 99) // 100
@@ -1004,22 +1181,14 @@ def run_C11(ctx):
         if len(q) == 2:
             tr.append(("openline %s" % c.split()[1], "%s %s" % (q[0], q[1]), {"case": c}))
     ctx.oracle("line_spec", tr)
+    sp = [c.replace("build ", "cands ", 1) for c in special_builds(ctx, quick_big=True) if c.split()[4] == "-" and precondition_ok(c)]
+    check_selection(ctx, sp, "cands_special")
 
 
 # ------------------------------------------------------------------------------------------ C16
-def run_C16(ctx):
-    rng = ctx.rng
-    cases = []
-    for v in range(40):
-        n = 21 + 4 * v
-        if ctx.quick and v % 3 and v not in (0, 39):
-            continue
-        bs = bytes(rng.randrange(2) | (rng.randrange(8) << 1) for _ in range(n * n))
-        cases.append("tostr %d %s" % (n, hexs(bs)))
-    for n in [21, 25]:
-        cases.append("tostr %d %s" % (n, hexs(bytes(n * n))))
-        cases.append("tostr %d %s" % (n, hexs(bytes([1]) * (n * n))))
-    impl, _ = ctx.correspond("to_str", cases)
+def check_tostr_cases(ctx, cases, stream="to_str"):
+    """`tostr` cases: correspondence and the independent reading of the terminal text back into the matrix"""
+    impl, _ = ctx.correspond(stream, cases)
     # oracle: decode the text back (independent reading of the four characters)
     ctx.count_oracle("terminal_decode", len(cases))
     for c, o in zip(cases, impl):
@@ -1053,6 +1222,21 @@ def run_C16(ctx):
                     break
         if not ok:
             ctx.direct_failure("terminal_decode", {"case": c}, "text does not decode back to the matrix with a one-module light border")
+
+
+def run_C16(ctx):
+    rng = ctx.rng
+    cases = []
+    for v in range(40):
+        n = 21 + 4 * v
+        if ctx.quick and v % 3 and v not in (0, 39):
+            continue
+        bs = bytes(rng.randrange(2) | (rng.randrange(8) << 1) for _ in range(n * n))
+        cases.append("tostr %d %s" % (n, hexs(bs)))
+    for n in [21, 25]:
+        cases.append("tostr %d %s" % (n, hexs(bytes(n * n))))
+        cases.append("tostr %d %s" % (n, hexs(bytes([1]) * (n * n))))
+    check_tostr_cases(ctx, cases)
     bc = gen_builds(ctx, 20 if ctx.quick else 300)
     ctx.correspond("build", bc)
 
@@ -1165,16 +1349,10 @@ def gen_svg_cases(ctx, count, versions, with_image=True):
     return cases
 
 
-def run_C12(ctx):
-    versions = [0, 1, 2, 6, 13, 24, 39] if ctx.quick else list(range(40))
-    cases = gen_svg_cases(ctx, 120 if ctx.quick else 2500, versions)
-    # all six shapes on every sampled version, plain
-    mats = symbol_matrices(ctx, versions)
-    for v, (n, hx) in mats.items():
-        for sh in range(6):
-            cases.append("svg %d %s shape=%d margin=%d" % (n, hx, sh, v % 5))
-    impl, _ = ctx.correspond("svg", cases)
-    no_panic(ctx, "svg", cases, impl)
+def check_svg_cases(ctx, cases, stream="svg"):
+    """correspondence + no-panic + purity + the XML-subset oracle (expected document) for `svg` stream cases"""
+    impl, _ = ctx.correspond(stream, cases)
+    no_panic(ctx, stream, cases, impl)
     # purity of rendering (second call equal, matrix unchanged) is the last field
     ctx.count_oracle("render_pure", len(impl))
     for c, o in zip(cases, impl):
@@ -1192,6 +1370,17 @@ def run_C12(ctx):
         ctx.notes.append("spec XML oracle stream not available in this driver build; skipped")
     else:
         ctx.oracle("xml_expected_doc", tr)
+
+
+def run_C12(ctx):
+    versions = [0, 1, 2, 6, 13, 24, 39] if ctx.quick else list(range(40))
+    cases = gen_svg_cases(ctx, 120 if ctx.quick else 2500, versions)
+    # all six shapes on every sampled version, plain
+    mats = symbol_matrices(ctx, versions)
+    for v, (n, hx) in mats.items():
+        for sh in range(6):
+            cases.append("svg %d %s shape=%d margin=%d" % (n, hx, sh, v % 5))
+    check_svg_cases(ctx, cases)
 
 
 # ------------------------------------------------------------------------------------------ C13
@@ -1240,6 +1429,16 @@ def run_C13(ctx):
                 cases.append("raster %d %s shape=%d margin=%d fitw=%d fith=%d" % (n, hx, sh, margin, a_, b_))
     if ctx.quick:
         cases = cases[:110]
+    # the other constructor forms of Color (Vec<u8>, &[u8] with 4 and with 3 components), incl. translucent / transparent
+    if mats:
+        n, hx = mats[min(mats)]
+        for fgc, bgc in [("000000ff", "ffffff00"), ("0000ffff", "ffffff80"), ("102030ff", "f0e0d0ff")]:
+            cases.append("raster %d %s shape=0 margin=2 fgv=%s bgv=%s fitw=%d" % (n, hx, fgc, bgc, (n + 4) * 4))
+            cases.append("raster %d %s shape=1 margin=2 fgv=%s bgv3=%s fitw=%d" % (n, hx, fgc, bgc, (n + 4) * 4))
+        # equal width and height requests, a request equal to the document side, both larger / smaller than each other
+        side = n + 8
+        for w_, h_ in [(side * 5, side * 5), (side * 4, side * 4), (side, side), (side * 4, side * 4 + 1), (side * 4 + 1, side * 4)]:
+            cases.append("raster %d %s shape=0 margin=4 fitw=%d fith=%d" % (n, hx, w_, h_))
     # histories of fit_width / fit_height calls (last value of each wins; the pixmap is the largest square within both)
     if mats:
         n, hx = mats[min(mats)]
@@ -1285,7 +1484,7 @@ def run_C14(ctx):
             if r < 0.3:
                 ops.append("build")
             elif r < 0.45:
-                ops.append("mode=%d" % rng.choice([m, 2, 2, rng.randrange(3)]) if m != 2 else "mode=2")
+                ops.append("mode=%d" % rng.choice([m, 2, 2, rng.randrange(3)]) if m != 2 else "mode=%d" % rng.choice([2, 2, 1, 0]))
             elif r < 0.65:
                 ops.append("ecl=%d" % rng.randrange(4))
             elif r < 0.85:
@@ -1295,15 +1494,25 @@ def run_C14(ctx):
         ops.append("build")
         # forced modes must accept the payload (otherwise the documented precondition is violated)
         ok = True
+        fm = None
         for op in ops:
             if op.startswith("mode="):
-                fm = int(op[5:])
+                fm = int(op[5:])     # a setter call alone is harmless; the precondition concerns the mode in force at build()
+            elif op == "build":
                 if fm == 0 and not all(c in DIGITS for c in data):
                     ok = False
                 if fm == 1 and not all(c in ALNUM for c in data):
                     ok = False
         if ok:
             cases.append("hist %s %s" % (hexs(data), " ".join(ops)))
+    # every ordered pair of mode setters on payloads each mode can hold, then build (the earlier call must leave no trace)
+    for data in (b"hello world", b"HELLO WORLD", b"12345", b"a1B2", b"Zz"):
+        for m1 in range(3):
+            for m2 in range(3):
+                okm = (m2 == 2) or (m2 == 1 and all(c in ALNUM for c in data)) or (m2 == 0 and all(c in DIGITS for c in data))
+                if okm:
+                    cases.append("hist %s mode=%d mode=%d build" % (hexs(data), m1, m2))
+                    cases.append("hist %s mode=%d ecl=1 mode=%d version=5 build" % (hexs(data), m1, m2))
     impl, _ = ctx.correspond("builder_histories", cases)
     no_panic(ctx, "hist", cases, impl)
     ctx.count_oracle("shared_vs_fresh_builder", len(cases))
@@ -1324,7 +1533,17 @@ def run_C14(ctx):
         if x != y:
             ctx.direct_failure("order_independence", {"case": c, "note": "same process, different preceding builds"}, "outputs differ: %s vs %s" % (x[:60], y[:60]))
     # renderer option order (everything except the shape layers is last-value-wins, so order must not matter)
-    so = gen_svg_cases(ctx, 20 if ctx.quick else 300, [1, 6], with_image=True)
+    so = gen_svg_cases(ctx, 40 if ctx.quick else 300, [1, 6], with_image=True)
+    # every unordered pair of last-value-wins setters, in both orders (an image is present, so the image options matter)
+    pm = symbol_matrices(ctx, [1])
+    if pm:
+        n_, hx_ = pm[1]
+        pool = ["margin=7", "bg=102030ff", "fg=0000ffff", "ishape=1", "ibg=ff000080", "isize=5.5", "igap=1.25", "ipos=10.5,12"]
+        import itertools
+        for a_, b_ in itertools.combinations(pool, 2):
+            so.append("svg %d %s image=%s %s %s" % (n_, hx_, hexs("i.png"), a_, b_))
+        for a_ in pool:
+            so.append("svg %d %s %s image=%s" % (n_, hx_, a_, hexs("i.png")))
     so2 = []
     for c in so:
         p = c.split()
@@ -1394,6 +1613,93 @@ def rand_colour_string(rng):
     return "".join(rng.choice("0123456789abcdef#+-gG \u00e9z") for _ in range(rng.randrange(0, 10)))
 
 
+def check_wasm_cases(ctx, cases, stream="wasm"):
+    """`wasmqr` / `wasm` stream cases: correspondence, no panic, qr() = native module values, qr_svg = native SvgBuilder output
+    for well-formed settings (empty string when the content cannot be encoded)"""
+    impl, _ = ctx.correspond(stream, cases)
+    no_panic(ctx, stream, cases, impl)
+    # oracle 1: qr() = row-major 0/1 values of a native build with default options (or empty)
+    qcs = [(c, o) for c, o in zip(cases, impl) if c.split()[0] == "wasmqr"]
+    nat = [build_case(None, None, None, None, bytes.fromhex(c.split()[1]) if len(c.split()) > 1 and c.split()[1] != "-" else b"") for c, _ in qcs]
+    nout = ctx.run_impl("native", nat)
+    ctx.count_oracle("wasm_qr_equals_native", len(nat))
+    for (c, wq), nb in zip(qcs, nout):
+        b = parse_build_out(nb)
+        want = "OK " + ("-" if b is None else "".join("%02x" % (int(b["hex"][2 * i:2 * i + 2], 16) & 1) for i in range(b["n"] * b["n"])))
+        if wq != want:
+            ctx.direct_failure("wasm_qr_equals_native", {"case": c}, "qr() differs from the native build's module values")
+    # oracle 2: qr_svg = native SvgBuilder output for well-formed settings (re-expressed through the svg stream)
+    tr = []
+    for c, o in zip(cases, impl):
+        p = c.split()
+        if p[0] != "wasm":
+            continue
+        well = True
+        opts = {"shape": "0", "margin": "4"}
+        order = []
+        for op in p[2:]:
+            k, v = op.split("=", 1)
+            if k in ("modcol", "bg", "ibg"):
+                s_ = bytes.fromhex(v).decode("utf-8") if v != "-" else ""
+                body = s_[1:] if s_.startswith("#") else s_
+                if len(body) in (6, 8) and all(ch in HEXD for ch in body):
+                    opts[k] = (body + ("ff" if len(body) == 6 else "")).lower()
+                elif all(ord(ch) < 128 for ch in body) and (len(body) < 6 or len(body) > 9):
+                    pass              # fewer than 3 or more than 4 byte pairs: "a malformed color ... every setter ignores" (documented)
+                else:
+                    well = False      # unclear whether the parser accepts it: only no-panic is required
+            elif k == "ipos":
+                # a position array whose length is not 2 is ignored by the setter (documented): the earlier value stays
+                if v != "-" and len(v.split(",")) == 2:
+                    opts[k] = v
+            else:
+                opts[k] = v
+        if not well:
+            continue
+        ver = int(opts["version"]) if "version" in opts else None
+        ecl = int(opts["ecl"]) if "ecl" in opts else None
+        tr.append((c, o, opts, ver, ecl))
+    bcases = [build_case(None, t[4], t[3], None, bytes.fromhex(t[0].split()[1]) if t[0].split()[1] != "-" else b"") for t in tr]
+    bouts = ctx.run_impl("native_build", bcases)
+    scases = []
+    keep = []
+    for t, bo in zip(tr, bouts):
+        b = parse_build_out(bo)
+        c, o, opts, ver, ecl = t
+        if b is None:
+            ctx.count_oracle("wasm_svg_equals_native", 1)
+            if o != "OK -":
+                ctx.direct_failure("wasm_svg_equals_native", {"case": c}, "content cannot be encoded but qr_svg did not return the empty string")
+            continue
+        so = ["shape=" + opts["shape"], "margin=" + opts["margin"]]
+        if "bg" in opts:
+            so.append("bg=" + opts["bg"])
+        if "modcol" in opts:
+            so.append("fg=" + opts["modcol"])
+        if "image" in opts and opts["image"] != "-":
+            so.append("image=" + opts["image"])
+        if "ibg" in opts:
+            so.append("ibg=" + opts["ibg"])
+        if "ishape" in opts:
+            so.append("ishape=" + opts["ishape"])
+        if "isize" in opts:
+            a_, g_ = opts["isize"].split(",")
+            so += ["isize=" + a_, "igap=" + g_]
+        if "ipos" in opts:
+            so.append("ipos=" + opts["ipos"])
+        scases.append("svg %d %s %s" % (b["n"], b["hex"], " ".join(so)))
+        keep.append((c, o))
+    souts = ctx.run_impl("native_svg", scases)
+    ctx.count_oracle("wasm_svg_equals_native", len(scases))
+    for (c, o), so in zip(keep, souts):
+        q = so.split()
+        if len(q) == 3 and q[0] == "OK":
+            if o != "OK " + q[1]:
+                ctx.direct_failure("wasm_svg_equals_native", {"case": c}, "qr_svg output differs from the native SvgBuilder output for the same settings")
+        else:
+            ctx.direct_failure("wasm_svg_equals_native", {"case": c}, "native builder: " + so[:40])
+
+
 def run_C17(ctx):
     rng = ctx.rng
     cases = []
@@ -1445,131 +1751,30 @@ def run_C17(ctx):
         cases.append("wasm 78 image=%s isize=5,1 ipos=%s" % (hexs("i.png"), pos))
     cases.append("wasm 78 isize=5,1")
     cases.append("wasm 78 image=%s isize=5,1" % hexs("i.png"))
-    impl, _ = ctx.correspond("wasm", cases)
-    no_panic(ctx, "wasm", cases, impl)
-    # oracle 1: qr() = row-major 0/1 values of a native build with default options (or empty)
-    nat = []
-    for c in contents:
-        nat.append(build_case(None, None, None, None, c.encode("utf-8")))
-    nout = ctx.run_impl("native", nat)
-    ctx.count_oracle("wasm_qr_equals_native", len(nat))
-    for c, wq, nb in zip(contents, impl[:len(contents)], nout):
-        b = parse_build_out(nb)
-        want = "OK " + ("-" if b is None else "".join("%02x" % (int(b["hex"][2 * i:2 * i + 2], 16) & 1) for i in range(b["n"] * b["n"])))
-        if wq != want:
-            ctx.direct_failure("wasm_qr_equals_native", {"case": "wasmqr " + hexs(c)}, "qr() differs from the native build's module values")
-    # oracle 2: qr_svg = native SvgBuilder output for well-formed settings (re-expressed through the svg stream)
-    tr = []
-    for c, o in zip(cases, impl):
-        p = c.split()
-        if p[0] != "wasm":
-            continue
-        well = True
-        opts = {"shape": "0", "margin": "4"}
-        order = []
-        for op in p[2:]:
-            k, v = op.split("=", 1)
-            if k in ("modcol", "bg", "ibg"):
-                s_ = bytes.fromhex(v).decode("utf-8") if v != "-" else ""
-                body = s_[1:] if s_.startswith("#") else s_
-                if len(body) in (6, 8) and all(ch in HEXD for ch in body):
-                    opts[k] = (body + ("ff" if len(body) == 6 else "")).lower()
-                else:
-                    well = False      # malformed colour: only no-panic is required
-            elif k == "ipos":
-                if v == "-" or len(v.split(",")) != 2:
-                    well = False
-                else:
-                    opts[k] = v
-            else:
-                opts[k] = v
-        if not well:
-            continue
-        ver = int(opts["version"]) if "version" in opts else None
-        ecl = int(opts["ecl"]) if "ecl" in opts else None
-        tr.append((c, o, opts, ver, ecl))
-    bcases = [build_case(None, t[4], t[3], None, bytes.fromhex(t[0].split()[1]) if t[0].split()[1] != "-" else b"") for t in tr]
-    bouts = ctx.run_impl("native_build", bcases)
-    scases = []
-    keep = []
-    for t, bo in zip(tr, bouts):
-        b = parse_build_out(bo)
-        c, o, opts, ver, ecl = t
-        if b is None:
-            ctx.count_oracle("wasm_svg_equals_native", 1)
-            if o != "OK -":
-                ctx.direct_failure("wasm_svg_equals_native", {"case": c}, "content cannot be encoded but qr_svg did not return the empty string")
-            continue
-        so = ["shape=" + opts["shape"], "margin=" + opts["margin"]]
-        if "bg" in opts:
-            so.append("bg=" + opts["bg"])
-        if "modcol" in opts:
-            so.append("fg=" + opts["modcol"])
-        if "image" in opts and opts["image"] != "-":
-            so.append("image=" + opts["image"])
-        if "ibg" in opts:
-            so.append("ibg=" + opts["ibg"])
-        if "ishape" in opts:
-            so.append("ishape=" + opts["ishape"])
-        if "isize" in opts:
-            a_, g_ = opts["isize"].split(",")
-            so += ["isize=" + a_, "igap=" + g_]
-        if "ipos" in opts:
-            so.append("ipos=" + opts["ipos"])
-        scases.append("svg %d %s %s" % (b["n"], b["hex"], " ".join(so)))
-        keep.append((c, o))
-    souts = ctx.run_impl("native_svg", scases)
-    ctx.count_oracle("wasm_svg_equals_native", len(scases))
-    for (c, o), so in zip(keep, souts):
-        q = so.split()
-        if len(q) == 3 and q[0] == "OK":
-            if o != "OK " + q[1]:
-                ctx.direct_failure("wasm_svg_equals_native", {"case": c}, "qr_svg output differs from the native SvgBuilder output for the same settings")
-        else:
-            ctx.direct_failure("wasm_svg_equals_native", {"case": c}, "native builder: " + so[:40])
+    check_wasm_cases(ctx, cases)
 
 
 # ------------------------------------------------------------------------------------------ C18
-def run_C18(ctx):
+def check_image_cases(ctx, cases, stream="svg_image"):
+    """`svg` stream cases with an embedded image: correspondence, no panic, and the frame / image geometry read back from the
+    attributes of the implementation's document"""
     import re as _re
-    rng = ctx.rng
-    versions = list(range(40))
-    mats = symbol_matrices(ctx, versions)
-    cases = []
-    meta = []
-    for v, (n, hx) in sorted(mats.items()):
-        for ish in (range(3) if not ctx.quick else [v % 3]):
-            for margin in (range(0, 17) if not ctx.quick else [[0, 4, 16, 3][v % 4]]):
-                cases.append("svg %d %s margin=%d image=%s ishape=%d" % (n, hx, margin, hexs("i.png"), ish))
-                meta.append((v, n, margin, None, None, None))
-    for _ in range(120 if ctx.quick else 3000):
-        v = rng.choice(sorted(mats))
-        n, hx = mats[v]
-        margin = rng.choice([0, 2, 4, 1, 7])
-        # overrides are multiples of 0.25 (exact in f64, so the fixed-point model is exact) over a wide range: tiny, ordinary,
-        # as large as the symbol and beyond it; positions anywhere on (and slightly off) the canvas
-        def q4(lo, hi):
-            return rng.randrange(int(lo * 4), int(hi * 4) + 1) / 4.0
-        r = rng.random()
-        size = None if r < 0.2 else q4(0.25, 12) if r < 0.6 else q4(12, n) if r < 0.8 else q4(n, 2 * n + 8)
-        r = rng.random()
-        gap = None if r < 0.25 else q4(0, 3) if r < 0.7 else q4(3, n / 2.0)
-        r = rng.random()
-        pos = None if r < 0.4 else (q4(0, n + 2 * margin), q4(0, n + 2 * margin)) if r < 0.9 else (q4(n, 2 * n), q4(0, 5))
-        o = "svg %d %s margin=%d image=%s ishape=%d" % (n, hx, margin, hexs("i.png"), rng.randrange(3))
-        if size is not None:
-            o += " isize=%s" % size
-        if gap is not None:
-            o += " igap=%s" % gap
-        if pos is not None:
-            o += " ipos=%s,%s" % pos
-        cases.append(o)
-        meta.append((v, n, margin, size, gap, pos))
-    impl, _ = ctx.correspond("svg_image", cases)
-    no_panic(ctx, "svg_image", cases, impl)
+    impl, _ = ctx.correspond(stream, cases)
+    no_panic(ctx, stream, cases, impl)
     ctx.count_oracle("frame_geometry", len(cases))
     prev_side = {}
-    for c, o, (v, n, margin, size, gap, pos) in zip(cases, impl, meta):
+    for c, o in zip(cases, impl):
+        # version index, size, margin and the overrides are read from the case line itself
+        cp_ = c.split()
+        n = int(cp_[1])
+        v = (n - 21) // 4
+        od = dict(x.split("=", 1) for x in cp_[3:])
+        margin = int(od.get("margin", 4))
+        size = float(od["isize"]) if "isize" in od else None
+        gap = float(od["igap"]) if "igap" in od else None
+        pos = tuple(float(t) for t in od["ipos"].split(",")) if "ipos" in od else None
+        if "image" not in od:
+            continue
         q = o.split()
         if len(q) != 3 or q[0] != "OK":
             ctx.direct_failure("frame_geometry", {"case": c}, o[:40])
@@ -1621,16 +1826,57 @@ def run_C18(ctx):
             ctx.direct_failure("frame_geometry", {"case": c}, "; ".join(bad))
 
 
+def run_C18(ctx):
+    import re as _re
+    rng = ctx.rng
+    versions = list(range(40))
+    mats = symbol_matrices(ctx, versions)
+    cases = []
+    meta = []
+    for v, (n, hx) in sorted(mats.items()):
+        for ish in (range(3) if not ctx.quick else [v % 3]):
+            for margin in (range(0, 17) if not ctx.quick else [[0, 4, 16, 3][v % 4]]):
+                cases.append("svg %d %s margin=%d image=%s ishape=%d" % (n, hx, margin, hexs("i.png"), ish))
+    for _ in range(120 if ctx.quick else 3000):
+        v = rng.choice(sorted(mats))
+        n, hx = mats[v]
+        margin = rng.choice([0, 2, 4, 1, 7])
+        # overrides are multiples of 0.25 (exact in f64, so the fixed-point model is exact) over a wide range: tiny, ordinary,
+        # as large as the symbol and beyond it; positions anywhere on (and slightly off) the canvas
+        def q4(lo, hi):
+            return rng.randrange(int(lo * 4), int(hi * 4) + 1) / 4.0
+        r = rng.random()
+        size = None if r < 0.2 else q4(0.25, 12) if r < 0.6 else q4(12, n) if r < 0.8 else q4(n, 2 * n + 8)
+        r = rng.random()
+        gap = None if r < 0.25 else q4(0, 3) if r < 0.7 else q4(3, n / 2.0)
+        r = rng.random()
+        pos = None if r < 0.4 else (q4(0, n + 2 * margin), q4(0, n + 2 * margin)) if r < 0.9 else (q4(n, 2 * n), q4(0, 5))
+        o = "svg %d %s margin=%d image=%s ishape=%d" % (n, hx, margin, hexs("i.png"), rng.randrange(3))
+        if size is not None:
+            o += " isize=%s" % size
+        if gap is not None:
+            o += " igap=%s" % gap
+        if pos is not None:
+            o += " ipos=%s,%s" % pos
+        cases.append(o)
+        if rng.random() < 0.5:
+            # the same settings given in the opposite order
+            p_ = o.split()
+            cases.append(" ".join(p_[:3] + list(reversed(p_[3:]))))
+    check_image_cases(ctx, cases)
+
+
 # ------------------------------------------------------------------------------------------ C19
 def run_C19(ctx):
     wd = os.path.join(WORK, "files")
     import shutil
     shutil.rmtree(wd, ignore_errors=True)      # outputs of earlier runs
     os.makedirs(wd, exist_ok=True)
-    classes = ["ok", "overwrite", "bare", "missingdir", "isdir", "devfull", "procfs", "longname", "nul",
+    classes = ["ok", "overwrite", "samelen", "bare", "missingdir", "isdir", "devfull", "procfs", "longname", "nul",
                "empty", "root", "dot", "dotdot", "trailslash", "relmissing"]
     cases = ["file %s %s %s %s" % (k, cl, wd, sz) for k in ("svg", "png") for cl in classes for sz in ("small", "large")]
     cases += ["file svg fsize %s %s" % (wd, sz) for sz in ("small", "large")]   # both SVG documents exceed the 1 KiB limit
+    cases += ["file svg %s %s nonascii" % (cl, wd) for cl in ("ok", "overwrite", "samelen", "bare")]   # a document with non-ASCII text
     if not ctx.quick:
         cases = cases * 5
     impl, _ = ctx.correspond("file", cases)
@@ -1638,50 +1884,126 @@ def run_C19(ctx):
     ctx.count_oracle("all_or_error", len(cases))
     for c, o in zip(cases, impl):
         cl = c.split()[2]
-        if cl in ("ok", "overwrite", "bare"):
+        if cl in ("ok", "overwrite", "samelen", "bare"):
             if o != "RET_OK same=1":
                 ctx.direct_failure("all_or_error", {"case": c}, "write to a writable path: " + o)
         else:
             if o.startswith("RET_OK"):
                 ctx.direct_failure("all_or_error", {"case": c}, "returned Ok although the file cannot hold the rendering: " + o)
 
+# ------------------------------------------------------------------------------------------ fuzz-candidate handlers
+def fuzz_builds(which=(), outcome=False, nopanic=False, codewords=False, selection=False, tostr=False, modeo=False, limit=150):
+    """decide the `build` candidates of the differential search with this property's oracles"""
+    def f(ctx, cands):
+        cases = [c for c in cands.get("build", []) if precondition_ok(c)][:limit]
+        if not cases:
+            return
+        impl, _ = ctx.correspond("fuzz-build", cases)
+        if nopanic:
+            no_panic(ctx, "fuzz-build", cases, impl)
+        if outcome:
+            outcome_oracle(ctx, "fuzz-outcome", cases, impl)
+        if which:
+            symbol_oracles(ctx, cases, impl, list(which))
+        if codewords:
+            check_data_codewords(ctx, cases, "fuzz-build")
+        if selection:
+            check_selection(ctx, [c.replace("build ", "cands ", 1) for c in cases if c.split()[4] == "-"], "fuzz-cands")
+        if modeo:
+            tr = [("omode " + c.split()[5], (lambda got, o=o: not o.startswith("OK ") or o.split()[4] == got), {"case": c})
+                  for c, o in zip(cases, impl) if c.split()[1] == "-" and c.split()[5] != "-"]
+            ctx.oracle("fuzz-iso_mode", tr)
+        if tostr:
+            ts = []
+            for c, o in zip(cases, impl):
+                b = parse_build_out(o)
+                if b:
+                    ts.append("tostr %d %s" % (b["n"], b["hex"]))
+            check_tostr_cases(ctx, ts[:60], "fuzz-to_str")
+    return f
+
+
+def precondition_ok(c):
+    """a forced mode must be able to represent the payload (documented precondition of QRBuilder::mode)"""
+    p = c.split()
+    if len(p) != 6:
+        return False
+    data = bytes.fromhex(p[5]) if p[5] != "-" else b""
+    if p[1] == "0":
+        return all(ch in DIGITS for ch in data)
+    if p[1] == "1":
+        return all(ch in ALNUM for ch in data)
+    return True
+
+
+def xml_chars_only(case):
+    """image strings are URLs / data URIs / paths (C12's quantifier): no character that XML forbids outright"""
+    for o in case.split()[3:]:
+        if o.startswith("image="):
+            try:
+                t = bytes.fromhex(o[6:]).decode("utf-8")
+            except (ValueError, UnicodeDecodeError):
+                return False
+            if any((ord(ch) < 32 and ch not in "\t\n\r") or ch in "\ufffe\uffff" for ch in t):
+                return False
+    return True
+
+
+def fuzz_svg(ctx, cands):
+    cases = [c for c in cands.get("svg", []) if xml_chars_only(c)][:150]
+    if cases:
+        check_svg_cases(ctx, cases, "fuzz-svg")
+
+
+def fuzz_image(ctx, cands):
+    cases = [c for c in cands.get("svg", []) if " image=" in c][:150]
+    if cases:
+        check_image_cases(ctx, cases, "fuzz-svg_image")
+
+
+def fuzz_wasm(ctx, cands):
+    cases = cands.get("wasm", [])[:150]
+    if cases:
+        check_wasm_cases(ctx, cases, "fuzz-wasm")
+
+
 REGISTRY = {
-    "C01": {"run": run_C01, "corpus": corpus_builds(["decode"]), "tables": ["all"],
+    "C01": {"run": run_C01, "fuzz": fuzz_builds(["decode"]), "corpus": corpus_builds(["decode"]), "tables": ["all"],
             "rule": "builds over (mode, level, version) cells at capacity / lower threshold / random lengths, forced and automatic options; non-trivial = distinct case line"},
-    "C02": {"run": run_C02, "corpus": corpus_builds(["rs"]), "tables": ["ecc_groups", "data_codewords", "polynomial", "log", "antilog", "max_bytes", "missing_bits"],
+    "C02": {"run": run_C02, "fuzz": fuzz_builds(["rs"]), "corpus": corpus_builds(["rs"]), "tables": ["ecc_groups", "data_codewords", "polynomial", "log", "antilog", "max_bytes", "missing_bits"],
             "rule": "builds at capacity for every (version, level) + random; structure() on all 160 layouts with position-tagged and random bytes"},
-    "C03": {"run": run_C03, "corpus": corpus_builds(["fixed"]), "tables": ["alignment", "version_size", "version_information"],
+    "C03": {"run": run_C03, "fuzz": fuzz_builds(["fixed"]), "corpus": corpus_builds(["fixed"]), "tables": ["alignment", "version_size", "version_information"],
             "rule": "all 40 blank symbols + builds; every cell compared with the ISO region map"},
-    "C04": {"run": run_C04, "corpus": corpus_builds(["format", "fields"]), "tables": ["format_info", "version_information"],
+    "C04": {"run": run_C04, "fuzz": fuzz_builds(["format", "fields"]), "corpus": corpus_builds(["format", "fields"]), "tables": ["format_info", "version_information"],
             "rule": "all (level, mask) x versions forced + random builds"},
-    "C05": {"run": run_C05, "corpus": corpus_builds(["decode"]), "tables": ["version_get", "data_codewords", "cci"],
+    "C05": {"run": run_C05, "fuzz": fuzz_builds(["decode"], outcome=True), "corpus": corpus_builds(["decode"]), "tables": ["version_get", "data_codewords", "cci"],
             "rule": "Version::get on every length 0..=7200 x 12 (+ huge lengths); builds at hi / hi+1 of every cell with forced versions"},
-    "C06": {"run": run_C06, "tables": ["cci", "data_codewords", "alnum"],
+    "C06": {"run": run_C06, "fuzz": fuzz_builds(codewords=True), "tables": ["cci", "data_codewords", "alnum"],
             "rule": "encode() at boundary lengths of every cell; push_bits sequences; data codewords read back from real symbols"},
-    "C07": {"run": run_C07, "tables": ["log", "antilog", "polynomial", "ecc_groups"],
+    "C07": {"run": run_C07, "fuzz": fuzz_builds(["rs"]), "tables": ["log", "antilog", "polynomial", "ecc_groups"],
             "rule": "division() on single-nonzero-byte basis, zeros, random blocks for every generator and block length in use"},
-    "C08": {"run": run_C08, "tables": [],
+    "C08": {"run": run_C08, "fuzz": fuzz_builds(["decode", "format_forced"]), "tables": [],
             "rule": "all 320 (version, mask) on zero / one / random data fills; pairs of forced masks through the API"},
-    "C09": {"run": run_C09, "tables": ["alnum"],
+    "C09": {"run": run_C09, "fuzz": fuzz_builds(["decode"], modeo=True), "tables": ["alnum"],
             "rule": "all strings of <= 2 bytes (quick: stride 5 on pairs), all class patterns up to length 8 (quick: 6), random long strings"},
-    "C10": {"run": run_C10, "corpus": corpus_builds([]), "tables": ["all"],
+    "C10": {"run": run_C10, "fuzz": fuzz_builds(nopanic=True, outcome=True), "corpus": corpus_builds([]), "tables": ["all"],
             "rule": "debug build (overflow checks + debug assertions): builds at boundary lengths, all-zero / 0xFF / pad look-alike payloads, lengths up to 8000; negative controls must panic"},
-    "C11": {"run": run_C11, "tables": ["percent_score"],
+    "C11": {"run": run_C11, "fuzz": fuzz_builds(selection=True), "tables": ["percent_score"],
             "rule": "selection traces through the hook recorder; documented penalty of every candidate; raw line / matrix scanners"},
-    "C12": {"run": run_C12, "tables": [],
+    "C12": {"run": run_C12, "fuzz": fuzz_svg, "tables": [],
             "rule": "SvgBuilder::to_str on real symbols: margins, 0..3 shape layers over the 6 shapes with and without colours, alpha, images incl. XML-special and non-ASCII strings, background shapes, overrides (multiples of 0.25)"},
     "C13": {"run": run_C13, "tables": [],
             "rule": "to_pixmap on real symbols: 6 shapes x margins x colour pairs (incl. transparent background) at 1 px/module (squares, every pixel) and >= 4 px/module (centre sampling) through fit width / height / both; PNG decoded with the png crate"},
     "C14": {"run": run_C14, "tables": [],
             "rule": "random setter/build histories on one builder compared with the model and with a fresh builder; 1..16 threads building different inputs vs the sequential results; render twice"},
-    "C17": {"run": run_C17, "tables": [],
+    "C17": {"run": run_C17, "fuzz": fuzz_wasm, "tables": [],
             "rule": "wasm option histories: every setter with well-formed and malformed values (colour strings of any content/length incl. non-ASCII, position arrays of length 0..4, size without position and vice versa), random histories; qr() on several contents"},
-    "C18": {"run": run_C18, "tables": [],
+    "C18": {"run": run_C18, "fuzz": fuzz_image, "tables": [],
             "rule": "default image frames for versions x 3 background shapes x margins 0..16 (quick: a spread) + sampled overrides; geometry read back from the attributes of the implementation's SVG"},
     "C19": {"run": run_C19, "tables": [],
             "rule": "to_file of SVG and PNG under 15 path classes: writable fresh / existing longer file / bare file name, missing directory (absolute and relative), path is a directory (work dir, /, ., ..), trailing slash, empty path, /dev/full (write-time ENOSPC), /proc (create-time), over-long name, NUL in path, file-size limit after a partial write"},
-    "C15": {"run": run_C15, "corpus": corpus_builds(["labels"]), "tables": ["alignment", "version_size"],
+    "C15": {"run": run_C15, "fuzz": fuzz_builds(["labels"]), "corpus": corpus_builds(["labels"]), "tables": ["alignment", "version_size"],
             "rule": "all 40 blank symbols + builds; every label compared with the ISO region map"},
-    "C16": {"run": run_C16, "tables": [],
+    "C16": {"run": run_C16, "fuzz": fuzz_builds(tostr=True), "tables": [],
             "rule": "terminal text of random module matrices at all sizes; decoded back by an independent reader"},
 }
